@@ -53,7 +53,7 @@ CHECKS["C07"] = (
 
 CHECKS["C01"] = (
     "CrossHair-explored rule shapes and backend configurations through the real from_dict -> convert_rule chain; each emitted query is parsed back with the configured target precedence and its equivalence with the reference semantics of the source document is decided by z3 over all truth assignments; leaf rendering on a symbolic value string",
-    "Rule shapes: 1..3 operands from a 24-entry detection pool (maps, lists of maps, value lists, keywords, |all, |neq, null, exists, regex+flags, cidr, windash expansion, cased, numbers, compare, fieldref), and/or/not, one optional negated parenthesised span, optional second condition; 13 backend configurations (6 precedence orders, parenthesize, in-list variants, no string operators, native CIDR, no explicit not-exists, NOT-as-not-equals). Per shape one z3 query decides equivalence for ALL assignments of the atomic predicates. String-operator selection: symbolic value (len <= 2/3) x 4 operator configurations x plain/cased.",
+    "Rule shapes: 1..3 operands from a 26-entry detection pool (maps, lists of maps, value lists, keywords, |all, |neq, null, exists, regex+flags, cidr, windash expansion, cased, numbers, compare, fieldref, base64offset of a non-ASCII value, wide|base64), and/or/not, one optional negated parenthesised span, optional second condition; 13 backend configurations (6 precedence orders, parenthesize, in-list variants, no string operators, native CIDR, no explicit not-exists, NOT-as-not-equals). Per shape one z3 query decides equivalence for ALL assignments of the atomic predicates. String-operator selection: symbolic value (len <= 2/3) x 4 operator configurations x plain/cased.",
     TB,
     "5.C01",
 )
